@@ -1601,11 +1601,13 @@ class StateEngine(object):
             as attempting to apply InputPath or OutputPath on a null JSON
             payload. A States.Runtime error is not retriable and will always
             cause the execution to fail. Similarly, with a Task.Terminated
-            error we want terminated Tasks to end immediately.
+            error we want terminated Tasks to end immediately, and an execution
+            whose history has reached its limit must end rather than grow it.
             A retry or catch on States.ALL will not catch these errors.
             """
             unrecoverable = (error_type == "States.Runtime" or
                              error_type == "States.ExecutionTimeout" or
+                             error_type == "States.ExecutionHistoryLimitExceeded" or
                              error_type == "Task.Terminated")
 
             retry = state.get("Retry")
